@@ -258,7 +258,7 @@ def tabulate(exe, wd, jobs, shards, maxstates=40000, budget=None):
     return stats, files
 
 
-def run_model(res, wd, shards, props, known, tags, prop, replay_path="", module="MapperImplMC", timeout=3000, mem="3g"):
+def run_model(res, wd, shards, props, known, tags, prop, replay_path="", module="MapperImplMC", timeout=3000, mem="2g"):
     write_mc(wd, props, known, tags, module=module)
     runs = [TlcRun(wd, "MC.tla", "MC.cfg", env={"TABLE": s, "REPLAY": replay_path}, name="s%d" % i, timeout=timeout, mem=mem)
             for i, s in enumerate(shards) if os.path.getsize(s) > 0]
@@ -351,7 +351,7 @@ def deep_walks(res, exe, wd, prop, tier):
         f.write("---- MODULE MT ----\nEXTENDS MapperTrace\nMCProps == %s\nMCKnown == %s\n====\n" % (tla_set(props), tla_set(known_ids(prop))))
     with open(os.path.join(wd, "MT.cfg"), "w") as f:
         f.write("SPECIFICATION Spec\nCONSTANTS\n  Props <- MCProps\n  KnownIds <- MCKnown\nPOSTCONDITION Accepted\nCHECK_DEADLOCK FALSE\n")
-    runs = [TlcRun(wd, "MT.tla", "MT.cfg", env={"TRACE": t}, name="mt%d" % i, deque=True, mem="4g", timeout=3000) for i, t in enumerate(traces)]
+    runs = [TlcRun(wd, "MT.tla", "MT.cfg", env={"TRACE": t}, name="mt%d" % i, deque=True, mem="2g", timeout=3000) for i, t in enumerate(traces)]
     run_tlc_many(runs)
     regs = [0] * 5
     nbad = 0
